@@ -1463,6 +1463,44 @@ Proof.
   destruct ((off <=? i) && (i <? off + olen)); [reflexivity|apply B5; exact Hi].
 Qed.
 
+(* What a relocation of the bitmap does to everybody else: every block that was allocated and is not part of the OLD bitmap
+   area is still allocated, and it is not part of the NEW bitmap area (the coverage only grows). *)
+Definition in_area (s : fsm) (i : Z) : Prop :=
+  shr (bmoff s) (bpow s) <= i < shr (bmoff s) (bpow s) + shr (bmlen s) (bpow s).
+Definition Grown (s s' : fsm) : Prop := nbits s <= nbits s' /\ bpow s' = bpow s /\ hdrlen s' = hdrlen s /\
+  forall i, 0 <= i < nbits s -> getb (bm s) i = true -> ~ in_area s i -> getb (bm s') i = true /\ ~ in_area s' i.
+Lemma grown_refl : forall s, Grown s s.
+Proof. intros s. split; [lia|]. split; [reflexivity|]. split; [reflexivity|]. intros i _ H1 H2. split; assumption. Qed.
+Lemma grown_trans : forall a b c, Grown a b -> Grown b c -> Grown a c.
+Proof.
+  intros a b c (N1 & P1 & Q1 & H1) (N2 & P2 & Q2 & H2). split; [lia|]. split; [congruence|]. split; [congruence|]. intros i Hi Hb Ha.
+  destruct (H1 i Hi Hb Ha) as [Hb' Ha']. apply H2; [lia|exact Hb'|exact Ha'].
+Qed.
+
+Lemma reloc_grown : forall s s1 s' nbmoff nbmlen, len_z (bm s1) = nbits s1 -> bm s' = reloc_result s1 nbmoff nbmlen ->
+  bmoff s' = nbmoff -> bmlen s' = nbmlen -> bpow s' = bpow s -> hdrlen s' = hdrlen s -> same_cfg s s1 ->
+  (forall i, 0 <= i < nbits s -> getb (bm s) i = true -> getb (bm s1) i = true) ->
+  bmlen s <= nbmlen -> 0 <= bmoff s -> 0 <= shr nbmoff (bpow s) ->
+  (forall i, shr nbmoff (bpow s) <= i < shr nbmoff (bpow s) + shr nbmlen (bpow s) -> 0 <= i < nbits s -> getb (bm s) i = false) ->
+  Grown s s'.
+Proof.
+  intros s s1 s' nbmoff nbmlen Hl1 Hbm O1 O2 O4 O6 (V1 & V2 & V3 & V4 & V5 & V6 & V7) Hsup Hle Hbo Hnb Hfree.
+  split; [unfold nbits; rewrite O2; lia|]. split; [exact O4|]. split; [exact O6|]. intros i Hi Hb Ha.
+  assert (Hlen : len_z (bm s1 ++ repeat false (Z.to_nat (8 * (nbmlen - bmlen s)))) = nbmlen * 8).
+  { rewrite len_z_app, len_z_repeat, Hl1. unfold nbits. rewrite V4. lia. }
+  split.
+  - rewrite Hbm. unfold reloc_result. rewrite V2, V4, V5.
+    rewrite getb_set_range; [|unfold shr; apply Z.shiftr_nonneg; exact Hbo|rewrite set_range_length, Hlen; unfold nbits in Hi; lia].
+    replace ((shr (bmoff s) (bpow s) <=? i) && (i <? shr (bmoff s) (bpow s) + shr (bmlen s) (bpow s))) with false
+      by (symmetry; destruct (shr (bmoff s) (bpow s) <=? i) eqn:Q1; [|reflexivity];
+          destruct (i <? shr (bmoff s) (bpow s) + shr (bmlen s) (bpow s)) eqn:Q2; [|reflexivity];
+          apply Z.leb_le in Q1; apply Z.ltb_lt in Q2; exfalso; apply Ha; unfold in_area; lia).
+    rewrite getb_set_range; [|exact Hnb|rewrite Hlen; unfold nbits in Hi; lia].
+    destruct ((shr nbmoff (bpow s) <=? i) && (i <? shr nbmoff (bpow s) + shr nbmlen (bpow s))); [reflexivity|].
+    rewrite getb_app_l by (rewrite Hl1; unfold nbits in *; rewrite V4; lia). apply Hsup; assumption.
+  - unfold in_area. rewrite O1, O2, O4. intros Hc. rewrite (Hfree i Hc Hi) in Hb. discriminate.
+Qed.
+
 (* giving back an area that was just carved out of the free space (fixes/fsm-resize-leak.diff) *)
 Lemma carved_release : forall s s1 off n, Good s -> BmArea s -> allocated_from s s1 off n ->
   Inv (snd (blk_deallocate s1 off n)) /\ BmArea (snd (blk_deallocate s1 off n)) /\ same_cfg s (snd (blk_deallocate s1 off n)).
@@ -1497,17 +1535,17 @@ Proof.
   apply B6. exact Hi.
 Qed.
 
-Definition resize_outcome (s : fsm) (r : Z * fsm) : Prop :=
+Definition resize_outcome (s : fsm) (size : Z) (r : Z * fsm) : Prop :=
   let '(rc, s') := r in
   (rc = 0 /\ s' = s) \/ (rc <> 0 /\ Inv s' /\ BmArea s' /\ same_cfg s s') \/
-  (rc = 0 /\ Inv s' /\ BmArea s' /\ bmlen s < bmlen s' /\ vr s' = vr s /\ bpow s' = bpow s /\ aunit s' = aunit s /\
+  (rc = 0 /\ Inv s' /\ BmArea s' /\ Grown s s' /\ bmlen s' = IW_ROUNDUP size (aunit s) /\ bmlen s < bmlen s' /\ vr s' = vr s /\ bpow s' = bpow s /\ aunit s' = aunit s /\
    hdrlen s' = hdrlen s /\ strict s' = strict s).
 
 (* _fsm_resize_fsm_bitmap_lw: the new bitmap is carved out of the free space it describes (or put behind the old coverage),
    the tree is reloaded and the old area released: the invariant holds again *)
 Theorem resize_keeps_inv : forall s size, Inv s -> WF s -> fx_lfbk (vr s) = true -> BmArea s ->
   0 <= size < 2 ^ 62 -> IW_ROUNDUP size (aunit s) * 8 <= FSM_BKEY_MAX ->
-  resize_outcome s (resize_fsm_bitmap s size).
+  resize_outcome s size (resize_fsm_bitmap s size).
 Proof.
   intros s size Hi Hwf Hfx Hba Hsz Hmax. pose proof Hba as (B1 & B2 & B3 & B4 & B5).
   pose proof (wf_bpow_lt s Hwf) as Hb. unfold resize_fsm_bitmap.
@@ -1554,7 +1592,11 @@ Proof.
     + right; left. split; [exact Hrc|]. destruct (ensure_fields s (nbmoff + nbmlen)) as [E C].
       split; [apply Inv_ensure_size; exact Hi|]. split; [|exact C].
       destruct C as (_ & C2 & _ & C4 & C5 & _). unfold BmArea, nbits. rewrite E, C2, C4, C5. exact Hba.
-    + right; right. split; [reflexivity|]. split; [exact I'|]. split; [|rewrite O2; repeat split; try assumption; lia].
+    + right; right. split; [reflexivity|]. split; [exact I'|].
+      assert (HG : Grown s s').
+      { apply (reloc_grown s s s' nbmoff nbmlen (inv_len s Hi) O8 O1 O2 O4 O6 (same_cfg_refl s));
+          [intros i _ Hb1; exact Hb1|lia|lia|unfold nbits in *; lia|intros i Hi1 Hi2; unfold nbits in *; lia]. }
+      split; [|split; [exact HG|split; [rewrite Hj; exact O2|rewrite O2; repeat split; try assumption; lia]]].
       (* the new area is marked and inside *)
       unfold BmArea. rewrite O1, O2, O4, O8. unfold nbits. rewrite O2.
       assert (Hin : shr nbmoff (bpow s) + shr nbmlen (bpow s) <= nbmlen * 8).
@@ -1609,7 +1651,15 @@ Proof.
         destruct C as (_ & C2 & _ & C4 & C5 & _). unfold BmArea, nbits. rewrite E, C2, C4, C5. exact Hba1.
     + replace (fx_leak (vr s) && negb (0 =? 0) && true) with false by (simpl; rewrite andb_false_r; reflexivity). cbv iota.
       right; right. split; [reflexivity|]. split; [exact I'|].
-      split; [|rewrite O2; repeat split; try congruence; lia].
+      assert (HG : Grown s s').
+      { apply (reloc_grown s s1 s' (shl off (bpow s)) nbmlen (inv_len s1 I1) O8 O1 O2 ltac:(congruence) ltac:(congruence) C1).
+        - intros i Hi1 Hb1. rewrite (alloc_flips_only_own s s1 off _ i Ha Hi1).
+          destruct ((off <=? i) && (i <? off + shr nbmlen (bpow s))); [reflexivity|exact Hb1].
+        - lia.
+        - exact B1.
+        - rewrite shr_shl by lia. lia.
+        - intros i Hi1 _. rewrite shr_shl in Hi1 by lia. apply A4. exact Hi1. }
+      split; [|split; [exact HG|split; [rewrite Hj; exact O2|rewrite O2; repeat split; try congruence; lia]]].
       unfold BmArea. rewrite O1, O2, O4, O8. unfold nbits. rewrite O2. rewrite V2 in *. rewrite Hshr.
       assert (Hin : off + shr nbmlen (bpow s) <= nbmlen * 8).
       { unfold nbits in A3. lia. }
